@@ -14,7 +14,7 @@ CHECKS = {
    text="Bounded exhaustive symbolic execution of the real CParser over symbolic token sequences (all 134 alphabet symbols per hole, "
         "<=4 tokens at file scope and <=3 after 12 context prefixes in the quick tier; <=5/<=4 thorough): every feasible path's outcome "
         "must be FileAST, ParseError with a location prefix, or RecursionError. z3 decides path feasibility; the frontier must be empty. "
-        "Character level: every string of <=4 (5) code points of Unicode, and seven accepted frames with a window of <=4 (5) free characters over a literal alphabet, through the real lexer (sre model) and the real parser.",
+        "Token level also: degenerate patterns (every pair of 20 specifier-only / empty / truncated members, declarations, parameters, initializers and statement heads, multi-token hole classes) and the rare-construct patterns. Character level: every string of <=4 (5) code points of Unicode, and seven accepted frames with a window of <=4 (5) free characters over a literal alphabet, through the real lexer (sre model) and the real parser.",
    note=TRUST + "Bounds: sequence length, alphabet spellings; longer inputs are outside the claim.",
    technique="dynamic symbolic execution of the real parser on symbolic token streams, z3 path feasibility, exhaustive path partition within the bound",
    design="4/C06"),
@@ -32,7 +32,7 @@ CHECKS = {
    text="Product symbolic execution: one CParser instance parses a symbolic history (token template, <=2 holes after 4 prefixes quick / <=3 thorough; histories that "
         "fail mid-scope, declare typedefs, end in look-ahead all occur as paths) and then a symbolic input (<=3 / <=4 holes in 3 contexts); a fresh instance parses the "
         "same input on the same path. Outcomes (AST incl. coordinates / ParseError text / exception class) must coincide on every feasible path and ASTs of two calls share no node. "
-        "Also: same text twice; reused CGenerator on the witness of each accepted class.",
+        "Histories include ones that fail 3 and 5 braces deep with parameters and block-scope typedefs in the open scopes. Also: same text twice; reused CGenerator on the witness of each accepted class and on the repository's own snippets (concrete).",
    note=TRUST + "One earlier call is inductive for longer histories only as far as the state a call can leave is reachable within the history bound. Generator reuse is executed concretely on solver witnesses. Lexer reuse (CLexer.input) belongs to the character-level run.",
    technique="product (self-composition) symbolic execution of the real parser over symbolic history and input token streams, z3 path feasibility, exhaustive within the bound",
    design="4/C12"),
@@ -128,7 +128,8 @@ CHECKS = {
    text="symx-tok with SYMBOLIC coordinates: token i carries free z3 integers line_i, col_i and the lexer's file name is a per-token tag F_i (a linemarker between any two tokens). The real parser runs over the templates of C02/C03/C05 (one hole less in quick) plus multi-parenthesis patterns; "
         "on every accepted path, for every AST node: (1) coordinate present for declarations, statements, identifiers, constants, operators; (2) its components are (F_j, line_j, col_j) of ONE token j - z3 proves the integer equalities for all layouts and the file tag must be token j's, not a looked-ahead token's; "
         "(3) ID / Constant / declared name / enumerator / label: j is the token spelling it; (4) three span rules over coordinate tokens (not after all parts, parts not before the parent for expressions/statements, list items in source order). Rejecting paths: the message's file:line:col is one token's triple. "
-        "If the parser's control flow ever consults a coordinate, the same tokens are re-parsed under the canonical layout in the same path and must give the same result.",
+        "If the parser's control flow ever consults a coordinate, the same tokens are re-parsed under the canonical layout in the same path and must give the same result. One file name may be the empty string (symbolic truthiness of file tags). "
+        "Errors raised by the lexer: a stray character at every position of seven accepted programs through the real lexer (sre model) and the real parser - once the lexer has reported it, the ParseError that escapes names the character's own file:line:column.",
    note=TRUST + "Span containment is checked through the three rules of symx/coordrules.py (exact token spans would need a second parser recording them). Exact token positions and illegal-character positions are C09's obligations. Replays lay the witness out with one linemarker per token realising the solver's line/column values.",
    technique="symbolic execution of the real parser with symbolic per-token line/column/file; z3 proves coordinate equalities for all layouts; exhaustive over template paths",
    design="4/C11"),
